@@ -117,7 +117,7 @@ def run_impl(case):
                     objs.append(o)
                     case['_cls_of'].append(st['cls'])
                 else:
-                    setattr(objs[st['o']], st['p'], _jval(st['v'], objs))
+                    setattr(objs[st['o']], st['p'], f"n{st['v']}" if st['p'] == 'name' else _jval(st['v'], objs))
             except (ValueError, TypeError, AttributeError) as e:
                 steps.append({'err': type(e).__name__})
                 break
@@ -393,29 +393,43 @@ def shrink(case):
 _WHY = re.compile(r'(fires|detached|leftover) step=(\d+) owner=(\d+) method=(\S+)(?: expected(=|<=)(\d+) got=(\d+))?')
 
 
+def _holders(sh, t, spec):
+    """objects whose parameters are read while resolving the spec from t (t first)"""
+    out, cur = [t], t
+    for n in spec['path']:
+        v = sh.vals[cur][n]
+        if not isinstance(v, dict):
+            break
+        cur = v['ref']
+        out.append(cur)
+    return out
+
+
 def classify(case, impl, fail):
     if fail.get('kind') != 'counterexample':
         return None
     m = _WHY.search(str(fail.get('why', '')))
     if not m:
         return None
-    kind, step, name = m.group(1), int(m.group(2)), m.group(4)
+    kind, step, owner, name = m.group(1), int(m.group(2)), int(m.group(3)), m.group(4)
     meth = next((x for x in case['classes'][1]['methods'] if x['name'] == name), None)
-    if meth is None or kind != 'fires':
+    if meth is None or step >= len(case['steps']):
         return None
-    exp, got = int(m.group(6)), int(m.group(7))
     specs = meth['specs']
-    roots = {s['path'][0] for s in specs}
-    # (1) a watcher group with several dependencies: filter and callback come from group[0] only.
-    #     Several specs of the method pass through a common object, i.e. share a path prefix.
-    shared_prefix = any(i < j and a['path'][0] == b['path'][0] for i, a in enumerate(specs) for j, b in enumerate(specs))
-    # (2) dependencies under different first sub-objects: replacing one tears down all dynamic watchers
-    #     of the method and rebuilds only those below the replaced attribute.
-    if exp == 1 and got == 0:
-        if len(roots) > 1:
-            # an earlier step assigned a root attribute of the owner other than the one on whose path the
-            # missed change lies
-            return 'rebind-drops-other-roots'
-        if shared_prefix:
-            return 'group0-filter-and-callback-only'
-    return None
+    st = case['steps'][step]
+    if len(specs) < 2 or kind == 'detached':
+        return None         # a method with a single path dependency has no group of several dependencies
+    sh = _replay_shadow(case, step)
+    if kind == 'fires' and st['op'] == 'set' and owner < len(sh.cls) and m.group(6) is not None:
+        exp, got = int(m.group(6)), int(m.group(7))
+        through = [s for s in specs if st['o'] in _holders(sh, owner, s)]
+        # dependencies below different first sub-objects: an earlier assignment of ANOTHER root attribute tore
+        # down every dynamic watcher of the method and rebuilt only those below that attribute
+        if exp == 1 and got == 0 and len(through) == 1:
+            earlier = {x['p'] for x in case['steps'][:step] if x['op'] == 'set' and x['o'] == owner}
+            other = {s['path'][0] for s in specs} - {through[0]['path'][0]}
+            if earlier & other:
+                return 'rebind-drops-other-roots'
+    # every object on which several dependencies of the method are registered (always the owner itself)
+    # holds ONE watcher whose sub-path filter and parent-notification callback come from group[0] only
+    return 'group0-filter-and-callback-only'
